@@ -12,6 +12,7 @@ import (
 	"github.com/boombuler/barcode/code128"
 	"github.com/boombuler/barcode/code39"
 	"github.com/boombuler/barcode/ean"
+	"github.com/boombuler/barcode/utils"
 	"pgregory.net/rapid"
 	"verif/ref"
 )
@@ -169,6 +170,9 @@ func checkC14(t TB, c C14Case) bool {
 	for round, extra := range c.Scales {
 		w := cur.Bounds().Dx()*(1+extra%3) + extra
 		h := 1 + extra%7
+		if extra%11 == 10 {
+			h = 0 // the library accepts a height of 0 for 1D codes (only the width is a scaled dimension)
+		}
 		var next barcode.Barcode
 		var serr error
 		if pv := try(func() {
@@ -331,6 +335,32 @@ func TestC14Exhaustive(t *testing.T) {
 			}
 		})
 	})
+	// the exported constructors of 1D codes with a checksum (an application drawing its own symbology): CheckSum()
+	// is the value handed over, also after scaling
+	for _, cs := range []int{0, 1, 7, 55, 102, 1 << 20} {
+		cs := cs
+		ct.guard(func() {
+			bits := new(utils.BitList)
+			for i := 0; i < 40; i++ {
+				bits.AddBit(i%3 != 1)
+			}
+			for v, bc := range []barcode.BarcodeIntCS{utils.New1DCodeIntCheckSum("own code", "content", bits, cs),
+				utils.New1DCodeIntCheckSumWithColor("own code", "content", bits, cs, barcode.ColorScheme24)} {
+				if bc.CheckSum() != cs {
+					failf(ct, "C14", "checksum", C14Case{Kind: "utils", Content: BStr(fmt.Sprint(cs))}, "utils constructor variant %d: CheckSum() = %d, the value handed over is %d", v, bc.CheckSum(), cs)
+				}
+				sc, err := barcode.Scale(bc, 90, 3)
+				if err != nil {
+					failf(ct, "C14", "checksum", C14Case{Kind: "utils", Content: BStr(fmt.Sprint(cs))}, "Scale: %v", err)
+				}
+				if ics, ok := sc.(barcode.BarcodeIntCS); !ok || ics.CheckSum() != cs {
+					failf(ct, "C14", "checksum", C14Case{Kind: "utils", Content: BStr(fmt.Sprint(cs))}, "utils constructor variant %d: after scaling CheckSum() is not the value %d handed over", v, cs)
+				}
+			}
+			st.Eval()
+			st.Class("exported 1D constructors with a checksum")
+		})
+	}
 	// an early content again after 20000 other short contents of its symbology (bounded memo tables that recycle
 	// their slots), and one character repeated more often than a 16-bit counter can count
 	for _, early := range []C14Case{{Kind: "code39", Content: BStr("A"), Checksum: true}, {Kind: "code39", Content: BStr("first"), Checksum: true, FullASCII: true},
